@@ -158,6 +158,7 @@ type node struct {
 	decl     *ast.FuncDecl
 	lit      *ast.FuncLit
 	pkg      *packages.Package
+	goBody   bool    // operand of a go statement
 	forced   bool    // entry lockset forced empty (exported, go target, escapes as a value)
 	why      string  // why forced
 	param    *pparam // literal bound to a parameter of an analysed function
@@ -195,6 +196,16 @@ type rawFact struct {
 	pos              token.Pos
 }
 
+// rawCall: a call of interest (callee in callsOfInterest, a sync method of a field of a
+// listed type, a channel operation on such a field, or a function used as a value)
+type rawCall struct {
+	caller *node
+	callee string
+	how    string // HCall, HGo, HDefer, HValue
+	st     *rel
+	pos    token.Pos
+}
+
 type chanFact struct {
 	typ, field, kind, fn, pos string
 }
@@ -228,6 +239,8 @@ type analysis struct {
 	rootDecl *node
 	gotos    map[string][]*rel // states at goto statements, per label (current function)
 	ptrAlias map[*types.Var][2]string // non-escaping local p := &x.f...  ->  (type, field)
+	calls    map[string]*rawCall
+	callInt  map[string]bool // callees of interest (node names); nil = all (selftest)
 	leaks    map[*types.Func]bool
 }
 
@@ -324,6 +337,62 @@ func (a *analysis) record(typ, field, kind string, pos token.Pos, fresh bool) {
 	}
 	key := fmt.Sprintf("%d/%s/%s/%s", pos, typ, field, kind)
 	a.facts[key] = &rawFact{typ: typ, field: field, kind: kind, n: a.cur, st: a.st.clone(), fresh: fresh, pos: pos}
+	if kind == "KWrite" {
+		// must-have-written set (statement order inside one function): carried in the state
+		// like a lock that is never released, filtered out of the locksets on output
+		a.st.gen[wrotePrefix+typ+"."+field] = true
+	}
+}
+
+const wrotePrefix = "!w:"
+
+func (a *analysis) recordCall(callee, how string, pos token.Pos) {
+	if a.st.bottom {
+		return
+	}
+	a.calls[fmt.Sprintf("%d/%s/%s", pos, callee, how)] = &rawCall{a.cur, callee, how, a.st.clone(), pos}
+}
+
+func (a *analysis) callOfInterest(n *node) bool {
+	if n.lit != nil {
+		return false
+	}
+	return a.callInt == nil || a.callInt[n.name]
+}
+
+func howOf(how string) string {
+	switch how {
+	case "go":
+		return "HGo"
+	case "defer":
+		return "HDefer"
+	}
+	return "HCall"
+}
+
+// fieldName: "T.f" when e selects a field of a listed type, else "".
+func (a *analysis) fieldName(e ast.Expr) string {
+	for {
+		if p, ok := e.(*ast.ParenExpr); ok {
+			e = p.X
+			continue
+		}
+		break
+	}
+	x, ok := e.(*ast.SelectorExpr)
+	if !ok {
+		return ""
+	}
+	sel := a.info().Selections[x]
+	if sel == nil || sel.Kind() != types.FieldVal {
+		return ""
+	}
+	owner, fv := fieldOwner(sel)
+	tn, ok := a.typeName(owner)
+	if !ok {
+		return ""
+	}
+	return tn + "." + fv.Name()
 }
 
 func (a *analysis) unknown(what string, e ast.Node) {
@@ -609,6 +678,9 @@ func (a *analysis) ident(x *ast.Ident, c ctx) {
 	case *types.Func:
 		if n := a.byFunc[o]; n != nil {
 			a.force(n, "function used as a value")
+			if a.callOfInterest(n) {
+				a.recordCall(n.name, "HValue", x.Pos())
+			}
 		}
 	}
 }
@@ -707,6 +779,9 @@ func (a *analysis) selector(x *ast.SelectorExpr, c ctx) {
 		if f, ok := sel.Obj().(*types.Func); ok {
 			if n := a.byFunc[f]; n != nil {
 				a.force(n, "method value")
+				if a.callOfInterest(n) {
+					a.recordCall(n.name, "HValue", x.Pos())
+				}
 			}
 		}
 		a.unknown("method-value", x)
@@ -740,6 +815,7 @@ func (a *analysis) chanOp(e ast.Expr, kind string, pos token.Pos) {
 	if _, isChan := fv.Type().Underlying().(*types.Chan); !isChan {
 		return
 	}
+	a.recordCall(map[string]string{"CSend": "send", "CRecv": "recv", "CClose": "close"}[kind]+"("+tname+"."+fv.Name()+")", "HCall", pos)
 	f := chanFact{tname, fv.Name(), kind, a.cur.name, a.posStr(pos)}
 	a.chans[f.typ+"|"+f.field+"|"+f.kind+"|"+f.fn] = f
 }
@@ -1104,6 +1180,9 @@ func (a *analysis) call(c *ast.CallExpr, how string) {
 	case "syncmethod":
 		// method of a sync.* / atomic.* value: a synchronisation operation on the field
 		a.expr(cl.sel.X, cSyncRecv)
+		if fn := a.fieldName(cl.sel.X); fn != "" {
+			a.recordCall(fn+"."+cl.name, howOf(how), c.Pos())
+		}
 		if syncCallback(cl.fn) && how == "call" {
 			a.syncArgs(c)
 		} else {
@@ -1123,6 +1202,7 @@ func (a *analysis) call(c *ast.CallExpr, how string) {
 		a.args(c, nil, cRead)
 		n.sites = append(n.sites, site{a.cur, siteState()})
 		if how == "go" {
+			n.goBody = true
 			g := goFact{a.cur.name, n.name, a.posStr(c.Pos())}
 			a.gos[g.spawner+"|"+g.body] = g
 		}
@@ -1140,6 +1220,7 @@ func (a *analysis) call(c *ast.CallExpr, how string) {
 		a.args(c, nil, cRead)
 		cl.nodes[0].sites = append(cl.nodes[0].sites, site{a.cur, siteState()})
 		if how == "go" {
+			cl.nodes[0].goBody = true
 			g := goFact{a.cur.name, cl.nodes[0].name, a.posStr(c.Pos())}
 			a.gos[g.spawner+"|"+g.body] = g
 		}
@@ -1174,7 +1255,11 @@ func (a *analysis) call(c *ast.CallExpr, how string) {
 	st := siteState()
 	for _, n := range target {
 		n.sites = append(n.sites, site{a.cur, st})
+		if a.callOfInterest(n) {
+			a.recordCall(n.name, howOf(how), c.Pos())
+		}
 		if how == "go" {
+			n.goBody = true
 			g := goFact{a.cur.name, n.name, a.posStr(c.Pos())}
 			a.gos[g.spawner+"|"+g.body] = g
 		}
@@ -2069,7 +2154,10 @@ func run(pkgs []*packages.Package, interest map[*types.TypeName]string, allStruc
 		params: map[*types.Var]*pparam{}, litVar: map[*types.Var]*node{},
 		facts: map[string]*rawFact{}, chans: map[string]chanFact{}, gos: map[string]goFact{},
 		unks: map[string]unkFact{}, globalsW: map[*types.Var]bool{}, universe: map[string]bool{},
-		ptrAlias: map[*types.Var][2]string{},
+		ptrAlias: map[*types.Var][2]string{}, calls: map[string]*rawCall{}, callInt: callsOfInterest,
+	}
+	if allStruct {
+		a.callInt = nil
 	}
 	root := pkgs[0]
 	for _, p := range pkgs {
@@ -2311,6 +2399,78 @@ type outFact struct {
 	Pos                     string
 }
 
+// splitState separates the lock names from the must-have-written markers.
+func splitState(ls lockset) (locks, written []string) {
+	for k := range ls {
+		if strings.HasPrefix(k, wrotePrefix) {
+			written = append(written, k[len(wrotePrefix):])
+		} else {
+			locks = append(locks, k)
+		}
+	}
+	sort.Strings(locks)
+	sort.Strings(written)
+	return
+}
+
+type outCall struct {
+	Caller, Callee, How string
+	Locks, Written      []string
+	InGo                bool
+	Pos                 string
+}
+
+// inGo: the function (literal) is the operand of a go statement, is nested in one, or is a
+// literal bound to a parameter that is only called from such places (w.spawn(func(){...})).
+func (a *analysis) inGo(n *node, seen map[*node]bool) bool {
+	if n == nil || seen[n] {
+		return false
+	}
+	seen[n] = true
+	if n.goBody {
+		return true
+	}
+	if n.param != nil && len(n.param.sites) > 0 && len(n.param.forwards) == 0 {
+		all := true
+		for _, s := range n.param.sites {
+			if !a.inGo(s.from, seen) {
+				all = false
+			}
+		}
+		if all {
+			return true
+		}
+	}
+	return a.inGo(n.parent, seen)
+}
+
+func (a *analysis) outCalls() []outCall {
+	u := a.universeList()
+	var raw []*rawCall
+	for _, c := range a.calls {
+		raw = append(raw, c)
+	}
+	sort.Slice(raw, func(i, j int) bool {
+		if raw[i].pos != raw[j].pos {
+			return raw[i].pos < raw[j].pos
+		}
+		return raw[i].callee+raw[i].how < raw[j].callee+raw[j].how
+	})
+	var out []outCall
+	for _, c := range raw {
+		locks, written := splitState(c.st.apply(c.caller.entry, u))
+		inGo := a.inGo(c.caller, map[*node]bool{})
+		out = append(out, outCall{c.caller.name, c.callee, c.how, locks, written, inGo, a.posStr(c.pos)})
+	}
+	sort.SliceStable(out, func(i, j int) bool {
+		if out[i].Callee != out[j].Callee {
+			return out[i].Callee < out[j].Callee
+		}
+		return out[i].Caller < out[j].Caller
+	})
+	return out
+}
+
 func (a *analysis) outFacts() []outFact {
 	u := a.universeList()
 	seen := map[string]bool{}
@@ -2327,11 +2487,7 @@ func (a *analysis) outFacts() []outFact {
 	var out []outFact
 	for _, f := range raw {
 		ls := f.st.apply(f.n.entry, u)
-		var locks []string
-		for k := range ls {
-			locks = append(locks, k)
-		}
-		sort.Strings(locks)
+		locks, _ := splitState(ls)
 		o := outFact{f.typ, f.field, f.kind, f.n.name, locks, f.fresh, a.posStr(f.pos)}
 		key := fmt.Sprint(o.Type, "|", o.Field, "|", o.Kind, "|", o.Func, "|", o.Locks, "|", o.Fresh)
 		if seen[key] {
@@ -2491,6 +2647,16 @@ func (a *analysis) emit(typesSeen []string, fields [][2]string, exported [][2]st
 	}
 	chunked(&w, "unknowns", "unknown_fact", it)
 	it = nil
+	calls := a.outCalls()
+	for _, c := range calls {
+		var wr []string
+		for _, x := range c.Written {
+			wr = append(wr, q(x))
+		}
+		it = append(it, fmt.Sprintf("mkCall %s %s %s %s [%s] %s %s", q(c.Caller), q(c.Callee), c.How, coqLocks(c.Locks), strings.Join(wr, "; "), coqBool(c.InGo), q(c.Pos)))
+	}
+	chunked(&w, "calls", "call_fact", it)
+	it = nil
 	for _, e := range exported {
 		it = append(it, "("+q(e[0])+", "+q(e[1])+")")
 	}
@@ -2512,12 +2678,31 @@ func (a *analysis) emit(typesSeen []string, fields [][2]string, exported [][2]st
 	counts := map[string]int{
 		"types": len(typesSeen), "fields": len(fields), "access_facts": len(facts), "fresh_facts": nfresh,
 		"functions": nfun, "function_literals": nlit, "go_statements": len(gl), "channel_ops": len(cl),
-		"unknowns": len(ul), "exported_methods": len(exported), "lock_names": len(a.universe) / 2,
+		"unknowns": len(ul), "exported_methods": len(exported), "call_facts": len(calls), "lock_names": len(a.universe) / 2,
 	}
 	for k, v := range byKind {
 		counts["kind_"+k] = v
 	}
 	return w.String(), counts
+}
+
+// calls of interest (names as in [functions]): every static call / go / defer / value use of
+// these is emitted into [calls].  Sync-method calls on fields of listed types (w.group.Add,
+// r.join.Wait, ...) and channel operations on such fields are emitted as well.
+var callsOfInterest = map[string]bool{
+	// Writer (Model/Writer.v)
+	"batchQueue.Put": true, "batchQueue.Get": true, "batchQueue.Close": true,
+	"partitionWriter.close": true, "newPartitionWriter": true, "partitionWriter.writeBatches": true,
+	"partitionWriter.writeBatch": true, "partitionWriter.awaitBatch": true, "partitionWriter.writeMessages": true,
+	"partitionWriter.newWriteBatch": true, "newWriteBatch": true, "newBatchQueue": true,
+	"writeBatch.add": true, "writeBatch.full": true, "writeBatch.trigger": true, "writeBatch.complete": true,
+	"Writer.spawn": true, "Writer.enter": true, "Writer.leave": true, "Writer.batchMessages": true,
+	"Writer.produce": true,
+	// consumer group (Model/ConsumerGroup.v)
+	"Generation.Start": true, "Generation.close": true, "ConsumerGroup.nextGeneration": true,
+	"ConsumerGroup.run": true, "ConsumerGroup.leaveGroup": true,
+	// Reader
+	"Reader.start": true, "Reader.unsubscribe": true, "Reader.subscribe": true, "Reader.run": true,
 }
 
 // interest table: package (path suffix after the module path) -> type names
@@ -2623,7 +2808,7 @@ func main() {
 		fmt.Print(text)
 	}
 	if *jsonOut != "" {
-		b, _ := json.MarshalIndent(map[string]interface{}{"counts": counts, "missing": missing, "facts": a.outFacts(), "fields": fieldTypes, "globals": gv}, "", " ")
+		b, _ := json.MarshalIndent(map[string]interface{}{"counts": counts, "missing": missing, "facts": a.outFacts(), "calls": a.outCalls(), "fields": fieldTypes, "globals": gv}, "", " ")
 		os.WriteFile(*jsonOut, b, 0o644)
 	}
 	cb, _ := json.Marshal(counts)
